@@ -96,7 +96,7 @@ func genFile(t *rapid.T) File {
 	if rapid.IntRange(0, 3).Draw(t, "declared") == 0 {
 		f.Declared = rapid.SampledFrom(declaredTypes).Draw(t, "ct")
 	}
-	f.Source = rapid.SampledFrom([]string{"", "", "", "", "seeker", "seeker", "osfile"}).Draw(t, "source")
+	f.Source = rapid.SampledFrom([]string{"", "", "", "", "seeker", "seeker", "osfile", "named-osfile"}).Draw(t, "source")
 	if rapid.IntRange(0, 3).Draw(t, "partly-consumed") == 0 {
 		f.Skip = rapid.SampledFrom([]int{1, 3, 16, 511, 512, 513, 700}).Draw(t, "skip")
 	}
@@ -236,9 +236,9 @@ func Gen(t *rapid.T) Case {
 		c.MediaType = rapid.SampledFrom(producerTypes).Draw(t, "mt")
 		c.Value = genValue(t, c.MediaType)
 	case 4, 5:
-		c.Kind = rapid.SampledFrom([]string{"reader", "reader", "buffer", "bytesreader"}).Draw(t, "readerkind")
+		c.Kind = rapid.SampledFrom([]string{"reader", "reader", "buffer", "bytesreader", "seekreader"}).Draw(t, "readerkind")
 	case 6:
-		c.Kind = "readcloser"
+		c.Kind = rapid.SampledFrom([]string{"readcloser", "readcloser", "seekreadcloser"}).Draw(t, "closerkind")
 	case 7, 8:
 		c.Kind = "form"
 		c.Fields = genFields(t, 1)
@@ -257,9 +257,12 @@ func Gen(t *rapid.T) Case {
 		c.Overlap = rapid.IntRange(0, 2).Draw(t, "overlap") == 0
 		c.PresetCT = rapid.SampledFrom([]string{"", "", "", "application/json", "text/plain", "multipart/form-data", "application/x-www-form-urlencoded"}).Draw(t, "presetct")
 	}
-	if c.Kind == "reader" || c.Kind == "readcloser" || c.Kind == "buffer" || c.Kind == "bytesreader" {
+	if c.Kind == "reader" || c.Kind == "readcloser" || c.Kind == "buffer" || c.Kind == "bytesreader" || c.Kind == "seekreader" || c.Kind == "seekreadcloser" {
 		c.MediaType = rapid.SampledFrom([]string{"application/octet-stream", "application/octet-stream", "application/json", "text/plain", mtStampA, mtMultipart, mtURLEncoded}).Draw(t, "mt")
 		c.Body = &Blob{Data: genContent(t), Script: genScript(t)}
+		if rapid.IntRange(0, 3).Draw(t, "partly-consumed") == 0 {
+			c.Body.Skip = rapid.SampledFrom([]int{1, 3, 16, 512, 700}).Draw(t, "skip")
+		}
 	}
 	return c
 }
@@ -430,6 +433,12 @@ func Classify(c Case) (bool, []string) {
 		}
 	}
 	if c.Body != nil {
+		if c.Body.Skip > 0 {
+			lab["reader partly consumed before hand-over ("+c.Kind+")"] = true
+			if c.Auth > 0 {
+				nt = true
+			}
+		}
 		script(c.Body.Script, c.Body.Data.Len, "reader")
 		if c.Body.Data.Len == 0 {
 			lab["reader empty"] = true
